@@ -35,41 +35,14 @@ def run(ctx):
 
     ctx.rule("C06.sites", "every consumer of an unordered (hash) iteration in ruma-state-res is order-insensitive by construction or a reviewed site (exact key + how the order is discharged)")
     seen, n_sites = set(), 0
-    for fn in sorted(w.crates["ruma_state_res"].all_fns(), key=lambda f: f["path"]):
-        if "body" not in fn or "::tests" in fn["path"] or "test_utils" in fn["path"]:
-            continue
-        counter = {}
-        for body in M.all_bodies(fn):
-            for bi, c in M.calls(body):
-                name = M.callee_name(c)
-                meth = name.rsplit("::", 1)[-1]
-                for ai, a in enumerate(c["args"]):
-                    if a.get("k") not in ("copy", "move"):
-                        continue
-                    ty = body["locals"][M.pl_local(a["pl"])]
-                    if not unordered(ty):
-                        continue
-                    n_sites += 1
-                    where = w.where(fn, c["line"])
-                    kind = "set" if "hash::set" in ty else "map"
-                    base = f"{fn['path']}|{meth}|{kind}"
-                    k = counter.get(base, 0)
-                    counter[base] = k + 1
-                    key = base if k == 0 else f"{base}#{k + 1}"
-                    seen.add(key)
-                    target = (c.get("fnargs") or [""])[-1]
-                    if meth in ADAPTORS:
-                        ctx.ok("C06.sites", f"C06.sites:{key}", where, "order-preserving adaptor (taint propagates to its consumer)", nontrivial=False)
-                    elif meth in ("collect", "extend", "from_iter") and ORDERED_TARGET.match(target if meth == "collect" else body["locals"][M.pl_local(c["args"][0]["pl"])].lstrip("&mut ").lstrip("&")):
-                        ctx.ok("C06.sites", f"C06.sites:{key}", where, f"collected into an order-free container ({target.split('<')[0].rsplit('::', 1)[-1]})")
-                    elif meth in INSENSITIVE:
-                        ctx.ok("C06.sites", f"C06.sites:{key}", where, "order-insensitive consumer")
-                    elif key in table:
-                        ctx.ok("C06.sites", f"C06.sites:{key}", where, "reviewed: " + table[key]["reason"])
-                    else:
-                        ctx.violation("C06.sites", f"C06.sites:{key}", where,
-                                      f"`{meth}` consumes a hash-ordered iteration ({ty[:80]}...) in an order-sensitive way and the site is not reviewed "
-                                      f"(its result may depend on hash seeds)")
+    for fn, c, key, status, why in order_sites(w, "ruma_state_res", table):
+        n_sites += 1
+        seen.add(key)
+        where = w.where(fn, c["line"])
+        if status == "violation":
+            ctx.violation("C06.sites", f"C06.sites:{key}", where, why)
+        else:
+            ctx.ok("C06.sites", f"C06.sites:{key}", where, why, nontrivial=(status != "adaptor"))
     ctx.floor("unordered iteration sites", n_sites, 20)
     for k in table:
         if k not in seen:
@@ -144,7 +117,44 @@ def run(ctx):
         ctx.check(good, "C06.identity", "C06.identity:no-conflict", w.where(f), bad_msg=f"{[D.show(p.ret)[:100] for p in empt][:2]}")
     except D.Unrecognised as e:
         ctx.unrecognised("C06.identity", "C06.identity:no-conflict", w.where(f), str(e))
+    from . import controls
+    controls.order(ctx, "C06.sites")
     ctx.assumptions += ["HashMap/HashSet/BinaryHeap semantics; Ord of Int, MilliSecondsSinceUnixEpoch and event ids is total",
                         "reviewed reasons in spec/order_allow.json (one per order-sensitive consumer)",
                         "resolve's precondition that all events belong to one room (one m.room.create) - see the creator cache entry"]
     ctx.samples += [{"site": "resolve: all_conflicted.iter().filter(..).cloned().collect::<Vec<_>>() (control_events)", "discharge": "only fed into the graph (HashMap) of the Kahn sort"}]
+
+
+def order_sites(w, crate, table):
+    """Yield (fn, call, key, status in {adaptor, insensitive, reviewed, violation}, message) for every consumer of an unordered iteration."""
+    for fn in sorted(w.crates[crate].all_fns(), key=lambda f: f["path"]):
+        if "body" not in fn or "::tests" in fn["path"] or "test_utils" in fn["path"]:
+            continue
+        counter = {}
+        for body in M.all_bodies(fn):
+            for bi, c in M.calls(body):
+                name = M.callee_name(c)
+                meth = name.rsplit("::", 1)[-1]
+                for ai, a in enumerate(c["args"]):
+                    if a.get("k") not in ("copy", "move"):
+                        continue
+                    ty = body["locals"][M.pl_local(a["pl"])]
+                    if not unordered(ty):
+                        continue
+                    kind = "set" if "hash::set" in ty else "map"
+                    base = f"{fn['path']}|{meth}|{kind}"
+                    k = counter.get(base, 0)
+                    counter[base] = k + 1
+                    key = base if k == 0 else f"{base}#{k + 1}"
+                    target = (c.get("fnargs") or [""])[-1]
+                    if meth in ADAPTORS:
+                        yield fn, c, key, "adaptor", "order-preserving adaptor (taint propagates to its consumer)"
+                    elif meth in ("collect", "extend", "from_iter") and ORDERED_TARGET.match(target if meth == "collect" else body["locals"][M.pl_local(c["args"][0]["pl"])].lstrip("&mut ").lstrip("&")):
+                        yield fn, c, key, "insensitive", f"collected into an order-free container ({target.split('<')[0].rsplit('::', 1)[-1]})"
+                    elif meth in INSENSITIVE:
+                        yield fn, c, key, "insensitive", "order-insensitive consumer"
+                    elif key in table:
+                        yield fn, c, key, "reviewed", "reviewed: " + table[key]["reason"]
+                    else:
+                        yield fn, c, key, "violation", (f"`{meth}` consumes a hash-ordered iteration ({ty[:80]}...) in an order-sensitive way and the site is not reviewed "
+                                                        f"(its result may depend on hash seeds)")
